@@ -83,6 +83,32 @@ def header_is(new, at_, ll, value):
     return VInt(smt.s_val(smt.s_slice(new.t, _lift(at_).t, (at_ + ll).t))) == value
 
 
+def header_at(new, at_, ll, value):
+    """header_is in a form that instantiates on ANY slice term of `new` and decides by arithmetic whether it is the
+    header (avoids congruence reasoning over arithmetically equal slice bounds in callers)"""
+    from pyvc.values import fresh_name
+    a, e = z3.Int(fresh_name('hlo')), z3.Int(fresh_name('hhi'))
+    return VBool(z3.ForAll([a, e], z3.Implies(z3.And(a == _lift(at_).t, e == (_lift(at_) + ll).t),
+                                              smt.s_val(smt.s_slice(new.t, a, e)) == _lift(value).t),
+                           patterns=[smt.s_slice(new.t, a, e)]))
+
+
+def region_at(new, base, seq, n, arity=1):
+    """region_decodes / tuples_region in a form that instantiates on ANY slice term of `new` together with an
+    element term of `seq` and decides by arithmetic whether the slice is that element's group"""
+    from pyvc.values import fresh_name
+    a, e, k = z3.Int(fresh_name('rlo')), z3.Int(fresh_name('rhi')), z3.Int(fresh_name('rk'))
+    cs = []
+    for c in range(arity):
+        el = at(seq, VInt(k))
+        el = el[c] if arity > 1 else el
+        lo = (_lift(base) + (VInt(k) * arity + c) * n).t
+        cs.append(z3.ForAll([a, e, k], z3.Implies(z3.And(0 <= k, k < S.len_(seq).t, a == lo, e == lo + _lift(n).t),
+                                                  smt.s_val(smt.s_slice(new.t, a, e)) == el.t),
+                            patterns=[z3.MultiPattern(smt.s_slice(new.t, a, e), el.t)]))
+    return VBool(z3.And(cs))
+
+
 def sval_frame(new, old):
     """groups lying inside the old content decode to the same values in the new content"""
     from pyvc.values import fresh_name
@@ -150,6 +176,7 @@ contract(C + 'Writer.add',
                                   S.len_(wbytes(ns)) == S.len_(wbytes(ns.old)) + ns.length,
                                   # the appended group decodes to x (consequence, stated for callers)
                                   header_is(wbytes(ns), S.len_(wbytes(ns.old)), ns.length, ns.x),
+                                  header_at(wbytes(ns), S.len_(wbytes(ns.old)), ns.length, ns.x),
                                   sval_frame(wbytes(ns), wbytes(ns.old))),
          raises={ValueError: ('iff', lambda ns: S.Not(fits_n(ns.x, ns.length)))},
          exc_ensures=unchanged,
@@ -497,12 +524,15 @@ contract(C + 'Writer.addVarSeq',
          ensures=lambda ns: (lambda new, b0, n: S.And(
              varseq_fits(ns),
              S.len_(new) == b0 + ns.lengthLength + n, S.is_bytes(new),
-             header_is(new, b0, ns.lengthLength, n),
+             header_is(new, b0, ns.lengthLength, n), header_at(new, b0, ns.lengthLength, n),
              # the byte-count is a multiple of the element size and divides back to the element count
              S.implies(ns.length >= 1, S.And(n % ns.length == 0, div(n, ns.length) == S.len_(ns.seq))),
              region_decodes(new, b0 + ns.lengthLength, ns.seq, ns.length),
+             region_at(new, b0 + ns.lengthLength, ns.seq, ns.length),
              # one-byte elements (opaque vectors written with addVarSeq(data, 1, ll)): the bytes themselves
-             S.implies(ns.length == 1, S.forall(lambda k: at(new, b0 + ns.lengthLength + k) == at(ns.seq, k), 0, S.len_(ns.seq))),
+             # (indexed by the position in the buffer, so that the buffer element is the instantiation trigger)
+             S.implies(ns.length == 1, S.forall(lambda i: at(new, i) == at(ns.seq, i - b0 - ns.lengthLength),
+                                                b0 + ns.lengthLength, b0 + ns.lengthLength + S.len_(ns.seq))),
              prefix_kept(ns)))(wbytes(ns), S.len_(wbytes(ns.old)), S.len_(ns.seq) * ns.length),
          lemmas=[(multiple_lemma, lambda ns: (S.len_(ns.seq), ns.length))],
          raises={ValueError: ('iff', lambda ns: S.Not(varseq_fits(ns)))},
@@ -555,9 +585,10 @@ def _vartupleseq_contract(arity):
         ensures=lambda ns: (lambda new, b0, n: S.And(
             ok(ns),
             S.len_(new) == b0 + ns.lengthLength + n, S.is_bytes(new),
-            header_is(new, b0, ns.lengthLength, n),
+            header_is(new, b0, ns.lengthLength, n), header_at(new, b0, ns.lengthLength, n),
             S.implies(ns.length >= 1, S.And(n % (ns.length * arity) == 0, div(n, ns.length * arity) == S.len_(ns.seq))),
             tuples_region(new, b0 + ns.lengthLength, ns.seq, arity, ns.length),
+            region_at(new, b0 + ns.lengthLength, ns.seq, ns.length, arity),
             prefix_kept(ns)))(wbytes(ns), S.len_(wbytes(ns.old)), S.len_(ns.seq) * arity * ns.length),
         lemmas=[(multiple_lemma, lambda ns: (S.len_(ns.seq), ns.length * arity))],
         raises={ValueError: ('iff', lambda ns: S.Not(ok(ns)))},
